@@ -47,16 +47,17 @@ def crash_site(e):
     return type(inner).__name__, site
 
 
-def guarded(src, opts):
-    """-> ('ok'|'refused'|'crash'|'hang', detail)"""
-    old = signal.signal(signal.SIGALRM, _alarm)
-    signal.alarm(WATCHDOG_S)
+def guarded(src, opts, limit=None):
+    """-> ('ok'|'refused'|'crash'|'hang', detail).  The watchdog counts the CPU time of this process (ITIMER_PROF), not
+    wall time: a loaded machine must not turn a slow schedule into a 'hang'."""
+    old = signal.signal(signal.SIGPROF, _alarm)
+    signal.setitimer(signal.ITIMER_PROF, limit or WATCHDOG_S)
     try:
         try:
             compiler().convert(src, **opts)
             return "ok", ""
         except Hang:
-            return "hang", f"no result within {WATCHDOG_S} s"
+            return "hang", f"no result within {limit or WATCHDOG_S} s of CPU time"
         except RecursionError:
             return "crash", "RecursionError@?"
         except Exception as e:  # noqa: BLE001
@@ -65,8 +66,8 @@ def guarded(src, opts):
             cls, site = crash_site(e)
             return "crash", f"{cls}@{site}"
     finally:
-        signal.alarm(0)
-        signal.signal(signal.SIGALRM, old)
+        signal.setitimer(signal.ITIMER_PROF, 0)
+        signal.signal(signal.SIGPROF, old)
 
 
 def tokens_of(src):
@@ -185,6 +186,29 @@ def monitor(ctx, tier):
         for b in bases:
             for m in mutants(b):
                 jobs.append((m, "full"))
+        # second-order edits: every edit of every 7th first-order edit (deterministic), plus every edit of the
+        # control-flow templates of C02 and of the expression families of C01
+        firsts = [m for b in bases for m in mutants(b)]
+        for m1 in firsts[::7]:
+            for m2 in mutants(m1):
+                jobs.append((m2, "plain"))
+        from vf.props import c01, c02
+
+        for name in c02.TEMPLATES:
+            try:
+                src = c02.build([name]) if c02.valid([name]) else None
+            except Exception:  # noqa: BLE001
+                src = None
+            if src:
+                jobs.append((src, "plain"))
+                for m in mutants(src):
+                    jobs.append((m, "plain"))
+        for e in list(c01.rel_family()) + list(c01.str_family()):
+            for tpl in ("10 IF {e} THEN 10", "10 Z = {e}", "10 PRINT {e}"):
+                src = tpl.format(e=e)
+                jobs.append((src, "plain"))
+                for m in mutants(src):
+                    jobs.append((m, "plain"))
     for s in extreme_inputs():
         jobs.append((s, "plain"))
         jobs.append((s, "full"))
@@ -199,6 +223,12 @@ def monitor(ctx, tier):
         if status == "crash":
             ctx.violation(f"crash:{detail}", f"{src[:90]!r} [{oname}] raises {detail}", {"source": src, "options": oname})
         elif status == "hang":
+            # replay before reporting: once more in this process with four times the CPU budget
+            again = guarded(src + "\n", PLAIN if oname == "plain" else FULL, limit=4 * WATCHDOG_S)
+            ctx.stats["traces_validated_against_impl"] += 1
+            if again[0] != "hang":
+                ctx.notes.append(f"watchdog fired once for {src[:60]!r} but the input converts in time on replay ({again[0]})")
+                continue
             ctx.violation(f"hang:{re.sub(r'[0-9]+', 'N', src[:30])}", f"{src[:90]!r} [{oname}]: {detail}", {"source": src, "options": oname})
     ctx.extra["monitor_outcomes"] = tally
     for (src, oname), (status, detail) in results[:: max(1, len(results) // 8)]:
@@ -239,8 +269,8 @@ def cli_names(ctx):
             path = os.path.join(tmp, stem + ".bas") if not stem.endswith(".") and not stem.startswith(".") else os.path.join(tmp, stem)
             with open(path, "w") as f:
                 f.write('10 PRINT "HI"\n')
-            old = signal.signal(signal.SIGALRM, _alarm)
-            signal.alarm(WATCHDOG_S * 2)
+            old = signal.signal(signal.SIGPROF, _alarm)
+            signal.setitimer(signal.ITIMER_PROF, WATCHDOG_S * 4)
             try:
                 try:
                     decb_to_b09.start([path, os.path.join(tmp, "out.b09")])
@@ -254,8 +284,8 @@ def cli_names(ctx):
                 except Exception as e:  # noqa: BLE001
                     status, detail = ("refused", type(e).__name__) if exc_kind(e) == "refused" else ("crash", "%s@%s" % crash_site(e))
             finally:
-                signal.alarm(0)
-                signal.signal(signal.SIGALRM, old)
+                signal.setitimer(signal.ITIMER_PROF, 0)
+                signal.signal(signal.SIGPROF, old)
             ctx.stats["programs"] += 1
             if status in ("crash", "hang"):
                 shape = "dash" if "-" in stem else "own-runtime-name" if stem in ("inkey", "ecb_cls") else "other:" + stem
